@@ -199,6 +199,29 @@ fn forged_kbs(a: &Session, hk: Hk) -> Vec<KbItem> {
             add(&format!("attacker_{lab}_key_with_embedded_jwk_header"), hdr, base_pl.clone(), &keys::attacker_enc(ed), a, "attacker", true);
         }
     }
+    // a genuinely holder-signed KB-JWT whose signature value is re-encoded (ASN.1 DER for ECDSA, extra zero byte,
+    // doubled): not the signed text any more, hence not a valid JWS
+    {
+        let tok = tokens::sign_json(&base_hdr, &base_pl, alg, &h1);
+        let segs: Vec<&str> = tok.split('.').collect();
+        if let Some(raw) = b64d(segs[2]) {
+            let mut encs: Vec<(&str, String)> = vec![];
+            if raw.len() == 64 && hk == Hk::Es {
+                encs.push(("der", codec::b64e(&tokens::ecdsa_der(&raw))));
+            }
+            let mut z = vec![0u8];
+            z.extend(&raw);
+            encs.push(("leading_zero_byte", codec::b64e(&z)));
+            let mut z = raw.clone();
+            z.push(0);
+            encs.push(("trailing_zero_byte", codec::b64e(&z)));
+            encs.push(("padded", format!("{}==", segs[2])));
+            encs.push(("twice", format!("{}{}", segs[2], segs[2])));
+            for (lab, e) in encs {
+                out.push(KbItem { label: format!("forged:signature_reencoded_{lab}"), token: Some(format!("{}.{}.{e}", segs[0], segs[1])), signer: "none".into(), alg_family_ok: false, typ: base_hdr.get("typ").cloned(), nonce: base_pl.get("nonce").cloned(), aud: base_pl.get("aud").cloned(), sd_hash: base_pl.get("sd_hash").cloned(), holder_made_for: None });
+            }
+        }
+    }
     // HMAC keyed with the holder's public key material
     let jwk = hk.jwk_value(0).unwrap();
     for (kn, kb) in [("jwk_text", hk.jwk_str(0).unwrap().as_bytes().to_vec()), ("x_bytes", b64d(jwk["x"].as_str().unwrap()).unwrap())] {
